@@ -187,9 +187,11 @@ KI_CONN = {
     '_enc_algs': 'seq[bytes]', '_mac_algs': 'seq[bytes]', '_cmp_algs': 'seq[bytes]',
     '_enc_alg_cs': 'bytes', '_enc_alg_sc': 'bytes', '_mac_alg_cs': 'bytes', '_mac_alg_sc': 'bytes',
     '_cmp_alg_cs': 'bytes', '_cmp_alg_sc': 'bytes',
+    # server only: host key table (algorithm name -> key pair) and the key pair chosen for this exchange
+    '_server_host_keys': 'dict[bytes,obj:KeyPair]', '_server_host_key': 'opt[obj:KeyPair]',
 }
 KI_CLASSES = dict(PACKET_CLASSES, SSHConnection=KI_CONN, Kex={'algorithm': 'bytes'}, Encryption={},
-                  GSS={'mechs': 'seq[bytes]'})
+                  GSS={'mechs': 'seq[bytes]'}, KeyPair={'algorithm': 'bytes'})
 
 # callee view of _choose_alg used at the call sites in _process_kexinit.  Its result is not constrained beyond two
 # quantifier-free consequences of the contract proved above (both lists are non-empty on a normal return; lemma
@@ -309,6 +311,89 @@ def ki_kex_start(cx):
 ki_kex_start.modifies = ()
 
 
+# ----- server host key algorithm (RFC 4253 7.1 server_host_key_algorithms: "the first algorithm on the client's
+# name-list that [the server supports]"; the server supports exactly the algorithms that are keys of its host key
+# table).  The key pair that will sign the exchange hash is the one registered under THAT algorithm and it is told
+# to sign with that algorithm.
+HK_CLASSES = {'SSHServerConnection': {'_server_host_keys': 'dict[bytes,obj:KeyPair]',
+                                      '_server_host_key': 'opt[obj:KeyPair]'},
+              'KeyPair': {'algorithm': 'bytes'}}
+
+
+def hk_map(c):
+    m = c.ex.deref(c.old_state, c.ex.get_field(c.old_state, c.self_ref, '_server_host_keys'))
+    return m
+
+
+def hk_none_before(peer, dom, i):
+    j = z3.Int(fresh_name('j'))
+    return z3.ForAll([j], z3.Implies(z3.And(0 <= j, j < i), z3.Not(z3.Select(dom, peer[j]))))
+
+
+def hk_first_supported(peer, dom, alg):
+    """alg is the first entry of the client's list that is a key of the server's host key table"""
+    i0 = z3.Int(fresh_name('i0'))
+    return z3.Exists([i0], z3.And(0 <= i0, i0 < z3.Length(peer), peer[i0] == alg, z3.Select(dom, alg),
+                                  hk_none_before(peer, dom, i0)))
+
+
+def hk_chosen_alg(c):
+    """(table key under which the object now in _server_host_key is registered, that object) or None"""
+    m = hk_map(c)
+    v = c.newv('_server_host_key')
+    ref = v.val if isinstance(v, VOpt) else v
+    if not isinstance(ref, VRef):
+        return None
+    for vid, kz, addr in c.new_state.heap.get('__mapobj_keys__', ()):
+        if vid == m.val.get_id() and addr == ref.addr:
+            return kz, ref, (v.isnone if isinstance(v, VOpt) else z3.BoolVal(False))
+    return None
+
+
+def hk_post(c):
+    m, peer = hk_map(c), c.arg('peer_host_key_algs')
+    ok = c.truthy(c.result_v)
+    ch = hk_chosen_alg(c)
+    if ch is None:
+        # no table entry was selected on this path: only acceptable when nothing on the client's list is supported
+        return z3.And(z3.Not(ok), hk_none_before(peer, m.dom, z3.Length(peer)))
+    alg, ref, isnone = ch
+    told = [z3.And(z3.BoolVal(isinstance(x['recv'], VRef) and x['recv'].addr == ref.addr), x['args'][0].z == alg)
+            for x in c.calls('set_sig_algorithm')]
+    return z3.And(ok, z3.Not(isnone), hk_first_supported(peer, m.dom, alg),
+                  z3.Or(alg == c.new('algorithm', ref), *told))
+
+
+def hk_unsupported_frame(c):
+    """no common algorithm: returns false and leaves the previously chosen key alone"""
+    m, peer = hk_map(c), c.arg('peer_host_key_algs')
+    return z3.Implies(z3.Not(c.truthy(c.result_v)),
+                      z3.And(hk_none_before(peer, m.dom, z3.Length(peer)),
+                             c.eq(c.oldv('_server_host_key'), c.newv('_server_host_key'))))
+
+
+choose_server_host_key = Spec(
+    'C03', 'connection', 'SSHServerConnection.choose_server_host_key', self_class='SSHServerConnection',
+    params=dict(peer_host_key_algs='seq[bytes]'), classes=HK_CLASSES,
+    stubs={'keypair.set_sig_algorithm': noop('set_sig_algorithm')},
+    loops={1: LoopSpec(header='for alg in peer_host_key_algs',
+                       invariant=lambda c: z3.And(
+                           hk_none_before(c.extra['iter'].z, hk_map(c).dom, c.extra['i']),
+                           c.eq(c.oldv('_server_host_key'), c.newv('_server_host_key'))))},
+    ensures=[('host-key-is-the-first-client-preferred-algorithm-we-have-a-key-for', hk_post),
+             ('false-iff-no-common-algorithm;then-nothing-chosen', hk_unsupported_frame)],
+    modifies=['_server_host_key'], returns='bool')
+choose_server_host_key.no_replay = True        # key pair objects / host key table are abstract
+
+get_server_host_key = Spec(
+    'C03', 'connection', 'SSHServerConnection.get_server_host_key', self_class='SSHServerConnection',
+    classes=HK_CLASSES,
+    ensures=[('the-key-that-signs-is-the-key-chosen-in-the-negotiation',
+              lambda c: c.eq(c.result_v, c.oldv('_server_host_key')))],
+    modifies=[], returns='opt[obj:KeyPair]')
+get_server_host_key.no_replay = True
+
+
 def ki_requires(c):
     p = c.old_state.rec(c.argv('packet')).fields
     return z3.And(p['_idx'].z == 1, p['_len'].z == z3.Length(p['_packet'].z))
@@ -376,7 +461,8 @@ KI_STUBS = dict(ROLE_STUBS, **{
     'expand_kex_algs': ret('seq[bytes]', 'local_kex_algs'),
     'self._choose_alg': contract_stub(lambda: choose_alg_bytes),
     'get_kex': ki_get_kex,
-    '*.choose_server_host_key': ret('bool', 'host_key_ok'),
+    # modular call: contract proved above (first client-preferred algorithm we have a key for)
+    '*.choose_server_host_key': contract_stub(lambda: choose_server_host_key),
     'encryption_needs_mac': ki_needs_mac,
     'self._kex.start': ki_kex_start,
 })
@@ -391,7 +477,10 @@ kexinit_parse = RSpec(
     requires=ki_requires, region=lambda fn: fn.body[:_ki_cut0(fn)], tags=['split-qf'],
     ensures=[('packet-consumed-completely', ki_consumed), ('first-kex-follows-flag', ki_first_follows)] +
             [(f'{n}-is-namelist-{k + 1}-of-payload', ki_local_is_field(k)) for k, n in enumerate(KI_LOCALS)],
-    raises={'ProtocolError': lambda c: z3.Not(c.oldv('_kex').isnone), 'PacketDecodeError': True})
+    raises={'ProtocolError': lambda c: z3.Not(c.oldv('_kex').isnone), 'PacketDecodeError': True},
+    # frame (engine: #frame obligations): parsing the peer's KEXINIT writes NO field of the connection - in
+    # particular not the configured lists / the role that [record] and [negotiate] read
+    modifies=[])
 kexinit_parse.tag = 'parse'
 kexinit_parse.no_replay = True
 kexinit_parse.feasible_timeout_ms = 300
@@ -435,6 +524,8 @@ def ki_locals_kept(c):
                   [c.local('first_kex_follows') == c.arg('first_kex_follows')])
 
 
+KI_RECORD_WRITES = ['_client_kexinit', '_server_kexinit', '_can_send_ext_info', '_strict_kex', '_kexinit_sent']
+
 kexinit_record = RSpec(
     'C03', 'connection', 'SSHConnection._process_kexinit', self_class='SSHConnection',
     params=KI_PARAMS, classes=KI_CLASSES, truthy=PACKET_TRUTHY, inline=KI_INLINE, stubs=KI_STUBS, cases=KI_CASES,
@@ -444,7 +535,10 @@ kexinit_record = RSpec(
              ('own-kexinit-untouched-by-peer-data', ki_own_kexinit),
              ('our-kex-list-from-configuration', ki_local_kex_list),
              ('peer-lists-unchanged', ki_locals_kept)],
-    raises={'ProtocolError': True})
+    raises={'ProtocolError': True},
+    # frame: everything else - the configured lists _kex_algs/_enc_algs/_mac_algs/_cmp_algs, the host key table, the
+    # role - has its function-entry value when [negotiate] starts
+    modifies=KI_RECORD_WRITES)
 kexinit_record.tag = 'record'
 kexinit_record.no_replay = True
 kexinit_record.feasible_timeout_ms = 300
@@ -495,6 +589,21 @@ def ki_started(c):
     return z3.BoolVal(len(ev) == 1 and isinstance(kex, VRef) and ev[0][1][0].addr == kex.addr)
 
 
+def ki_host_key(c):
+    """server: the host key algorithm is negotiated exactly once, from the CLIENT's server_host_key_algorithms list
+    (the local that [parse] proved to be name-list 2 of the payload) - what choose_server_host_key then selects is
+    its own contract: the first entry of that list we have a key for - and the exchange goes on only if that
+    succeeded (GSS methods need no host key).  A client chooses nothing here (see F-C03-1 in ASSUMPTIONS)."""
+    calls = c.calls('choose_server_host_key')
+    if ki_is_client(c):
+        return z3.BoolVal(len(calls) == 0)
+    if len(calls) != 1 or calls[0]['exc'] is not None:
+        return z3.BoolVal(False)
+    kex_alg = c.local('kex_alg')
+    return z3.And(calls[0]['args'][0].z == c.arg('peer_host_key_algs'),
+                  z3.Or(c.truthy(calls[0]['ret']), z3.PrefixOf(bytes_const(b'gss-'), kex_alg)))
+
+
 kexinit_negotiate = RSpec(
     'C03', 'connection', 'SSHConnection._process_kexinit', self_class='SSHConnection',
     params=dict(_pkttype='int', _pktid='int', packet='obj:SSHPacket'),
@@ -507,8 +616,11 @@ kexinit_negotiate = RSpec(
              ('mac-sc-from-sc-lists', ki_mac('_mac_alg_sc', '_enc_alg_sc', F_MAC_SC)),
              ('cmp-cs-from-cs-lists', ki_negotiated('_cmp_alg_cs', F_CMP_CS)),
              ('cmp-sc-from-sc-lists', ki_negotiated('_cmp_alg_sc', F_CMP_SC)),
-             ('selected-kex-started-once', ki_started)],
-    raises={'KeyExchangeFailed': True, 'UnicodeDecodeError': True})
+             ('selected-kex-started-once', ki_started),
+             ('host-key-chosen-once-from-the-client-list', ki_host_key)],
+    raises={'KeyExchangeFailed': True, 'UnicodeDecodeError': True},
+    modifies=['_kex', '_ignore_first_kex', '_enc_alg_cs', '_enc_alg_sc', '_mac_alg_cs', '_mac_alg_sc', '_cmp_alg_cs',
+              '_cmp_alg_sc', '_server_host_key'])
 kexinit_negotiate.tag = 'negotiate'
 kexinit_negotiate.no_replay = True
 kexinit_negotiate.feasible_timeout_ms = 300
@@ -719,13 +831,16 @@ send_newkeys_after_verify.modifies = ()
 verify_reply = Spec(
     'C03', 'kex_dh', '_KexDHBase._verify_reply', self_class='_KexDHBase',
     params=dict(key='obj:Key', key_data='bytes', sig='bytes'), classes=KEX_CLASSES,
-    stubs={'self._compute_client_shared': may_raise(ret('bytes', 'K'), 'ProtocolError'),
+    # every outcome the three _compute_client_shared contracts allow (classic DH: AssertionError when no DH object
+    # exists, i.e. a REPLY that was not preceded by our INIT)
+    stubs={'self._compute_client_shared': may_raise(ret('bytes', 'K'), 'ProtocolError', 'AssertionError'),
            'self._compute_hash': ret('bytes', 'H'),
            'key.verify': ret('bool', 'sig_ok'),
            'self._conn.send_newkeys': send_newkeys_after_verify},
     ensures=[('newkeys-exactly-once', lambda c: z3.BoolVal(len(c.events('send_newkeys')) == 1))],
     raises={'KeyExchangeFailed': lambda c: z3.BoolVal(not c.events('send_newkeys')),
-            'ProtocolError': lambda c: z3.BoolVal(not c.events('send_newkeys'))},
+            'ProtocolError': lambda c: z3.BoolVal(not c.events('send_newkeys')),
+            'AssertionError': lambda c: z3.BoolVal(not c.events('send_newkeys') and not c.calls('key.verify'))},
     modifies=[])
 
 
@@ -744,12 +859,15 @@ def pr_consistent(c):
 perform_reply = Spec(
     'C03', 'kex_dh', '_KexDHBase._perform_reply', self_class='_KexDHBase',
     params=dict(key='obj:Key', key_data='bytes'), classes=KEX_CLASSES,
-    stubs={'self._compute_server_shared': may_raise(ret('bytes', 'K'), 'ProtocolError'),
+    # _compute_server_shared (three implementations, each under contract) writes _dh/_f (classic DH) or _server_pub
+    # (hybrids: ciphertext prepended); the stub havocs exactly those
+    stubs={'self._compute_server_shared': may_raise(ret('bytes', 'K', modifies=('_dh', '_f', '_server_pub')),
+                                                    'ProtocolError'),
            'self._compute_hash': ret('bytes', 'H'), 'key.sign': ret('bytes', 'sig'),
            'self._send_reply': noop('send_reply'), 'self._conn.send_newkeys': noop('send_newkeys')},
     ensures=[('reply,signature,newkeys-use-the-same-K,H,K_S', pr_consistent)],
     raises={'ProtocolError': lambda c: z3.BoolVal(not c.calls('send_newkeys') and not c.calls('_send_reply'))},
-    modifies=[])
+    modifies=['_dh', '_f', '_server_pub'])
 
 
 # ===================================================================== (f) role checks / message order
@@ -779,57 +897,6 @@ def pkt_wf(c):
 KEXP_CLASSES = dict(KEX_CLASSES, **PACKET_CLASSES)
 KEXP_PARAMS = dict(_pkttype='int', _pktid='int', packet='obj:SSHPacket')
 
-process_init = Spec(
-    'C03', 'kex_dh', '_KexDHBase._process_init', self_class='_KexDHBase', params=KEXP_PARAMS, classes=KEXP_CLASSES,
-    truthy=PACKET_TRUTHY, inline=dict(PACKET_INLINE),
-    requires=lambda c: pkt_wf(c),
-    stubs=dict(CONN_ROLE_STUBS, **{
-        'self._parse_client_key': may_raise(noop('parse_client_key'), 'ProtocolError', 'PacketDecodeError'),
-        '*.get_server_host_key': ret('opt[obj:Key]', 'host_key'),
-        'self._perform_reply': may_raise(noop('perform_reply'), 'ProtocolError')}),
-    ensures=[('only-a-server-answers-INIT', lambda c: z3.Not(conn_is_client(c))),
-             ('reply-uses-our-host-key-and-its-public-blob', lambda c: (lambda pr, hk: z3.And(
-                 z3.BoolVal(len(pr) == 1 and len(hk) == 1 and isinstance(pr[0]['args'][0], VRef)),
-                 z3.BoolVal(isinstance(pr[0]['args'][0], VRef) and isinstance(hk[0]['ret'], VOpt) and
-                            pr[0]['args'][0].addr == hk[0]['ret'].val.addr),
-                 pr[0]['args'][1].z == c.new('public_data', pr[0]['args'][0]) if isinstance(pr[0]['args'][0], VRef)
-                 else z3.BoolVal(False)))(c.calls('_perform_reply'), c.calls('get_server_host_key')))],
-    always=[('INIT-on-a-client-is-fatal-and-inert', lambda c: z3.Implies(conn_is_client(c), z3.And(
-        z3.BoolVal(c.raised == 'ProtocolError'),
-        nothing_happened(c, '_parse_client_key', '_perform_reply', 'get_server_host_key'))))],
-    raises={'ProtocolError': True, 'PacketDecodeError': True,
-            'AssertionError': lambda c: nothing_happened(c, '_perform_reply')},
-    modifies=[])
-
-
-def rp_consistent(c):
-    v, vr = c.calls('validate_server_host_key'), c.calls('_verify_reply')
-    if len(v) != 1 or len(vr) != 1:
-        return z3.BoolVal(False)
-    key_ok = c.eq(vr[0]['args'][0], v[0]['ret'])
-    return z3.And(key_ok, vr[0]['args'][1].z == v[0]['args'][0].z)
-
-
-process_reply = Spec(
-    'C03', 'kex_dh', '_KexDHBase._process_reply', self_class='_KexDHBase', params=KEXP_PARAMS, classes=KEXP_CLASSES,
-    truthy=PACKET_TRUTHY, inline=dict(PACKET_INLINE),
-    requires=lambda c: pkt_wf(c),
-    stubs=dict(CONN_ROLE_STUBS, **{
-        'self._parse_server_key': may_raise(noop('parse_server_key'), 'ProtocolError', 'PacketDecodeError'),
-        '*.validate_server_host_key': may_raise(ret('obj:Key', 'validated_key'), 'HostKeyNotVerifiable',
-                                                'KeyImportError'),
-        'self._verify_reply': may_raise(noop('verify_reply'), 'ProtocolError', 'KeyExchangeFailed')}),
-    ensures=[('only-a-client-accepts-REPLY', conn_is_client),
-             ('verified-key-is-the-validated-one-for-the-hashed-blob', rp_consistent)],
-    always=[('REPLY-on-a-server-is-fatal-and-inert', lambda c: z3.Implies(z3.Not(conn_is_client(c)), z3.And(
-        z3.BoolVal(c.raised == 'ProtocolError'),
-        nothing_happened(c, '_parse_server_key', 'validate_server_host_key', '_verify_reply'))))],
-    raises={'ProtocolError': True, 'PacketDecodeError': True, 'KeyExchangeFailed': True,
-            'HostKeyNotVerifiable': lambda c: nothing_happened(c, '_verify_reply'),
-            'KeyImportError': lambda c: nothing_happened(c, '_verify_reply')},
-    modifies=[])
-
-
 # ===================================================================== group exchange (RFC 4419)
 _sunbe = z3.Function('sunbe', BytesS, IntS)      # two's complement big-endian decode (engine model of from_bytes signed)
 GEX_INLINE = dict(PACKET_INLINE, **{'SSHPacket.get_mpint': ('packet', 'SSHPacket.get_mpint'),
@@ -850,12 +917,21 @@ def pg_group_from_packet(c):
     return z3.And(c.new('_p') == p, c.new('_g') == g)
 
 
+def pg_consumed(c):
+    """... and nothing else: a GROUP with trailing bytes is not answered with INIT"""
+    P = pkt(c)['_packet'].z
+    l1 = unbe(z3.Extract(P, 1, 4))
+    l2 = unbe(z3.Extract(P, 5 + l1, 4))
+    return z3.And(z3.Length(P) == 5 + l1 + 4 + l2, consumed(c))
+
+
 process_group = Spec(
     'C03', 'kex_dh', '_KexDHGex._process_group', self_class='_KexDHGex', params=KEXP_PARAMS, classes=KEXP_CLASSES,
     truthy=PACKET_TRUTHY, inline=GEX_INLINE, requires=pkt_wf,
     stubs=dict(CONN_ROLE_STUBS, **{'MPInt': mpint_stub, 'self._perform_init': noop('perform_init')}),
     ensures=[('only-a-client-accepts-GROUP-and-only-once', lambda c: z3.And(conn_is_client(c), c.old('_p') == 0)),
              ('group-is-the-one-in-the-packet', pg_group_from_packet),
+             ('GROUP-consumed-completely', pg_consumed),
              ('hash-input-covers-the-installed-group', lambda c: c.new('_gex_data') == z3.Concat(
                  c.old('_gex_data'), _mpint(c.new('_p')), _mpint(c.new('_g')))),
              ('init-sent-once', lambda c: z3.BoolVal(len(c.events('perform_init')) == 1))],
@@ -947,27 +1023,159 @@ send_request = Spec(
     raises={'OverflowError': lambda c: z3.BoolVal(not c.calls('send_packet'))})
 
 
-def _parse_key_spec(meth, fld):
-    """e / f are accepted only when a group is installed, and are the mpint carried by the packet"""
+def _parse_key_spec(cls, meth, fld, dh):
+    """the receivers of the ephemeral public value.  Classic DH: e / f are accepted only when a group is installed,
+    and are the mpint carried by the packet.  ECDH / hybrids (RFC 5656 4, every default method): Q_C / Q_S recorded -
+    and later hashed (fmt_specs) and used (_ecdh_shared_spec, hybrid_*) - is the string carried by the packet, byte
+    for byte.  Both: the reader advances exactly over that field; nothing else of the exchange state is written."""
     def from_packet(c):
         p0 = pkt(c)
         P, i = p0['_packet'].z, p0['_idx'].z
         ln = unbe(z3.Extract(P, i, 4))
-        return z3.And(c.old('_p') != 0, c.new(fld) == _sunbe(z3.Extract(P, i + 4, ln)),
+        raw = z3.Extract(P, i + 4, ln)
+        return z3.And(c.old('_p') != 0 if dh else z3.BoolVal(True), c.new(fld) == (_sunbe(raw) if dh else raw),
                       pkt(c, new=True)['_idx'].z == i + 4 + ln)
-    sp = Spec('C03', 'kex_dh', f'_KexDHBase.{meth}', self_class='_KexDHBase', params=dict(packet='obj:SSHPacket'),
+    raises = {'PacketDecodeError': lambda c: c.new(fld) == c.old(fld)}
+    if dh:
+        raises['ProtocolError'] = lambda c: z3.And(c.old('_p') == 0, c.new(fld) == c.old(fld))
+    sp = Spec('C03', 'kex_dh', f'{cls}.{meth}', self_class=cls, params=dict(packet='obj:SSHPacket'),
               classes=KEXP_CLASSES, truthy=PACKET_TRUTHY, inline=GEX_INLINE,
               requires=lambda c: z3.And(pkt(c)['_idx'].z >= 0, pkt(c)['_len'].z == z3.Length(pkt(c)['_packet'].z)),
               ensures=[('value-from-packet', from_packet)],
               always=[('p,g,gex_data-unchanged', gex_unchanged)],
-              raises={'ProtocolError': lambda c: z3.And(c.old('_p') == 0, c.new(fld) == c.old(fld)),
-                      'PacketDecodeError': lambda c: c.new(fld) == c.old(fld)})
+              raises=raises, modifies=[fld])
     sp.no_replay = True
     return sp
 
 
-parse_client_key = _parse_key_spec('_parse_client_key', '_e')
-parse_server_key = _parse_key_spec('_parse_server_key', '_f')
+parse_client_key = _parse_key_spec('_KexDHBase', '_parse_client_key', '_e', True)
+parse_server_key = _parse_key_spec('_KexDHBase', '_parse_server_key', '_f', True)
+ecdh_parse_client_key = _parse_key_spec('_KexECDH', '_parse_client_key', '_client_pub', False)
+ecdh_parse_server_key = _parse_key_spec('_KexECDH', '_parse_server_key', '_server_pub', False)
+
+
+# ----- KEX*_INIT / KEX*_REPLY handlers.  The virtual parsers _parse_client_key / _parse_server_key are INLINED from
+# their real source (classic DH: _KexDHBase, mpint e / f; ECDH and the PQ hybrids: _KexECDH, string Q_C / Q_S), one
+# contract per implementation, so the chain "bytes on the wire -> field -> hash input / shared secret" has no stubbed
+# link, and the reader position is the real one: the handler goes on only with a packet it consumed completely.
+def wire_string(P, off):
+    """(content, offset after it) of the RFC 4251 string that starts at `off` of payload P"""
+    ln = unbe(z3.Extract(P, off, 4))
+    return z3.Extract(P, off + 4, ln), off + 4 + ln
+
+
+def consumed(c):
+    p1, P = pkt(c, new=True), pkt(c)['_packet'].z
+    return z3.And(p1['_packet'].z == P, p1['_idx'].z == z3.Length(P), p1['_len'].z == z3.Length(P))
+
+
+def untouched(c, *flds):
+    """nothing was read from the packet and none of the fields changed"""
+    return z3.And([pkt(c, new=True)['_idx'].z == pkt(c)['_idx'].z] + [c.new(f) == c.old(f) for f in flds])
+
+
+def pi_reply_with_our_key(c):
+    pr, hk = c.calls('_perform_reply'), c.calls('get_server_host_key')
+    if not (len(pr) == 1 and len(hk) == 1 and isinstance(pr[0]['args'][0], VRef) and isinstance(hk[0]['ret'], VOpt)):
+        return z3.BoolVal(False)
+    return z3.And(z3.BoolVal(pr[0]['args'][0].addr == hk[0]['ret'].val.addr),
+                  pr[0]['args'][1].z == c.new('public_data', pr[0]['args'][0]))
+
+
+KEX_VARIANTS = [      # (tag, class, client field, server field, decoder of the wire string, inline table)
+    ('dh', '_KexDHBase', '_e', '_f', lambda x: _sunbe(x), '_KexDHBase'),
+    ('ecdh', '_KexECDH', '_client_pub', '_server_pub', lambda x: x, '_KexECDH'),
+]
+# what _perform_reply (-> _compute_server_shared of the three implementations) writes
+REPLY_WRITES = ['_dh', '_f', '_server_pub']
+
+
+def _process_init_spec(tag, cls, fld, dec, impl):
+    def received(c):
+        """INIT = byte || e (mpint) | Q_C (string), nothing else: the value that will be hashed and used is the
+        value received, and a packet with trailing bytes is not answered"""
+        P = pkt(c)['_packet'].z
+        v, end = wire_string(P, z3.IntVal(1))
+        return z3.And(c.new(fld) == dec(v), end == z3.Length(P), consumed(c))
+    sp = RSpec(
+        'C03', 'kex_dh', '_KexDHBase._process_init', self_class=cls, params=KEXP_PARAMS, classes=KEXP_CLASSES,
+        truthy=PACKET_TRUTHY,
+        inline=dict(GEX_INLINE, **{'self._parse_client_key': ('kex_dh', impl + '._parse_client_key')}),
+        requires=lambda c: pkt_wf(c),
+        stubs=dict(CONN_ROLE_STUBS, **{
+            'MPInt': mpint_stub,
+            '*.get_server_host_key': ret('opt[obj:Key]', 'host_key'),
+            'self._perform_reply': contract_stub(lambda: perform_reply)}),
+        ensures=[('only-a-server-answers-INIT', lambda c: z3.Not(conn_is_client(c))),
+                 ('client-value-is-the-wire-field;INIT-consumed-completely', received),
+                 ('reply-uses-our-host-key-and-its-public-blob', pi_reply_with_our_key)] +
+                ([('e-accepted-only-with-a-group-installed', lambda c: c.old('_p') != 0)] if tag == 'dh' else []),
+        always=[('INIT-on-a-client-is-fatal-and-inert', lambda c: z3.Implies(conn_is_client(c), z3.And(
+            z3.BoolVal(c.raised == 'ProtocolError'), untouched(c, fld),
+            nothing_happened(c, '_perform_reply', 'get_server_host_key')))),
+            ('p,g,gex_data-unchanged', gex_unchanged)],
+        raises={'ProtocolError': True,
+                'PacketDecodeError': lambda c: nothing_happened(c, '_perform_reply', 'get_server_host_key'),
+                'AssertionError': lambda c: nothing_happened(c, '_perform_reply')},
+        modifies=[fld] + [f for f in REPLY_WRITES if f != fld])
+    sp.tag = tag
+    sp.no_replay = True
+    return sp
+
+
+def _process_reply_spec(tag, cls, fld, dec, impl):
+    def fields(c):
+        """REPLY = byte || string K_S || f (mpint) | Q_S (string) || string signature"""
+        P = pkt(c)['_packet'].z
+        ks, o2 = wire_string(P, z3.IntVal(1))
+        v, o3 = wire_string(P, o2)
+        sig, end = wire_string(P, o3)
+        return P, ks, v, sig, end
+
+    def received(c):
+        P, _ks, v, _sig, end = fields(c)
+        return z3.And(c.new(fld) == dec(v), end == z3.Length(P), consumed(c))
+
+    def checked(c):
+        """the key that verifies is the one validated for the K_S of the packet; K_S and the signature handed on
+        are the packet's fields"""
+        _P, ks, _v, sig, _end = fields(c)
+        v, vr = c.calls('validate_server_host_key'), c.calls('_verify_reply')
+        if len(v) != 1 or len(vr) != 1:
+            return z3.BoolVal(False)
+        return z3.And(c.eq(vr[0]['args'][0], v[0]['ret']), v[0]['args'][0].z == ks, vr[0]['args'][1].z == ks,
+                      vr[0]['args'][2].z == sig)
+    sp = RSpec(
+        'C03', 'kex_dh', '_KexDHBase._process_reply', self_class=cls, params=KEXP_PARAMS, classes=KEXP_CLASSES,
+        truthy=PACKET_TRUTHY,
+        inline=dict(GEX_INLINE, **{'self._parse_server_key': ('kex_dh', impl + '._parse_server_key')}),
+        requires=lambda c: pkt_wf(c),
+        stubs=dict(CONN_ROLE_STUBS, **{
+            'MPInt': mpint_stub,
+            '*.validate_server_host_key': may_raise(ret('obj:Key', 'validated_key'), 'HostKeyNotVerifiable',
+                                                    'KeyImportError'),
+            'self._verify_reply': contract_stub(lambda: verify_reply)}),
+        ensures=[('only-a-client-accepts-REPLY', conn_is_client),
+                 ('server-value-is-the-wire-field;REPLY-consumed-completely', received),
+                 ('K_S,signature-are-the-wire-fields;verified-key-is-the-validated-one', checked)] +
+                ([('f-accepted-only-with-a-group-installed', lambda c: c.old('_p') != 0)] if tag == 'dh' else []),
+        always=[('REPLY-on-a-server-is-fatal-and-inert', lambda c: z3.Implies(z3.Not(conn_is_client(c)), z3.And(
+            z3.BoolVal(c.raised == 'ProtocolError'), untouched(c, fld),
+            nothing_happened(c, 'validate_server_host_key', '_verify_reply')))),
+            ('p,g,gex_data-unchanged', gex_unchanged)],
+        raises={'ProtocolError': True, 'KeyExchangeFailed': True,
+                'PacketDecodeError': lambda c: nothing_happened(c, 'validate_server_host_key', '_verify_reply'),
+                'AssertionError': True,
+                'HostKeyNotVerifiable': lambda c: nothing_happened(c, '_verify_reply'),
+                'KeyImportError': lambda c: nothing_happened(c, '_verify_reply')},
+        modifies=[fld])
+    sp.tag = tag
+    sp.no_replay = True
+    return sp
+
+
+process_init_specs = [_process_init_spec(t, cls, cf, dec, impl) for t, cls, cf, _sf, dec, impl in KEX_VARIANTS]
+process_reply_specs = [_process_reply_spec(t, cls, sf, dec, impl) for t, cls, _cf, sf, dec, impl in KEX_VARIANTS]
 
 perform_init = Spec(
     'C03', 'kex_dh', '_KexDHBase._perform_init', self_class='_KexDHBase', classes=KEX_CLASSES,
@@ -1018,6 +1226,14 @@ def rsa_newkeys_after_verify(cx):
 
 rsa_newkeys_after_verify.modifies = ()
 
+def rsa_done_received(c):
+    """DONE = byte || string signature, nothing else; the signature that is verified is that field"""
+    P = pkt(c)['_packet'].z
+    sig, end = wire_string(P, z3.IntVal(1))
+    ver = c.calls('host_key.verify')
+    return z3.And(z3.BoolVal(len(ver) == 1), ver[0]['args'][1].z == sig, end == z3.Length(P), consumed(c))
+
+
 rsa_process_done = Spec(
     'C03', 'kex_rsa', '_KexRSA._process_done', self_class='_KexRSA', params=KEXP_PARAMS, classes=RSA_CLASSES,
     truthy=PACKET_TRUTHY, inline=dict(PACKET_INLINE),
@@ -1028,7 +1244,8 @@ rsa_process_done = Spec(
         'self._compute_hash': ret('bytes', 'H'), 'host_key.verify': ret('bool', 'sig_ok'), 'MPInt': mpint_stub,
         'self._conn.send_newkeys': rsa_newkeys_after_verify}),
     ensures=[('only-a-client-accepts-DONE', conn_is_client),
-             ('newkeys-exactly-once', lambda c: z3.BoolVal(len(c.events('send_newkeys')) == 1))],
+             ('newkeys-exactly-once', lambda c: z3.BoolVal(len(c.events('send_newkeys')) == 1)),
+             ('signature-is-the-wire-field;DONE-consumed-completely', rsa_done_received)],
     always=[('DONE-on-a-server-is-fatal-and-inert', lambda c: z3.Implies(z3.Not(conn_is_client(c)), z3.And(
         z3.BoolVal(c.raised == 'ProtocolError'),
         nothing_happened(c, 'validate_server_host_key', '_compute_hash', 'send_newkeys')))),
@@ -1037,6 +1254,125 @@ rsa_process_done = Spec(
             'HostKeyNotVerifiable': True, 'KeyImportError': True},
     modifies=[])
 rsa_process_done.no_replay = True
+
+
+# KEXRSA_PUBKEY (client) / KEXRSA_SECRET (server): role checks, the hashed items K_S, K_T, enc(K) are the wire
+# fields, complete consumption, and what goes out is consistent with what is hashed
+RSA2_FIELDS = dict(RSA_FIELDS, _k_limit='int', algorithm='bytes', _trans_key='opt[obj:RSAKey]')
+RSA2_CLASSES = dict(RSA_CLASSES, _KexRSA=RSA2_FIELDS, RSAKey={})
+RSA_HASHED = ['_host_key_data', '_trans_key_data', '_encrypted_k', '_k']
+
+
+def rsa_pubkey_post(c):
+    P = pkt(c)['_packet'].z
+    ks, o2 = wire_string(P, z3.IntVal(1))
+    kt, end = wire_string(P, o2)
+    dec, rnd, enc, sp = (c.calls('decode_ssh_public_key'), c.calls('randrange'), c.calls('trans_key.encrypt'),
+                         c.calls('send_packet'))
+    if not all(len(x) == 1 for x in (dec, rnd, enc, sp)):
+        return z3.BoolVal(False)
+    return z3.And(c.new('_host_key_data') == ks, c.new('_trans_key_data') == kt, end == z3.Length(P), consumed(c),
+                  dec[0]['args'][0].z == kt, c.eq(enc[0]['recv'], dec[0]['ret']),       # encrypted to K_T of the packet
+                  c.new('_k') == rnd[0]['ret'].z, enc[0]['args'][0].z == _mpint(c.new('_k')),
+                  c.new('_encrypted_k') == enc[0]['ret'].z,
+                  sp[0]['args'][1].z == ssh_string_z(c.new('_encrypted_k')))
+
+
+rsa_process_pubkey = Spec(
+    'C03', 'kex_rsa', '_KexRSA._process_pubkey', self_class='_KexRSA', params=KEXP_PARAMS, classes=RSA2_CLASSES,
+    truthy=PACKET_TRUTHY, inline=dict(PACKET_INLINE), requires=lambda c: pkt_wf(c),
+    stubs=dict(CONN_ROLE_STUBS, **{
+        'decode_ssh_public_key': may_raise(ret('obj:RSAKey', 'trans_key'), 'KeyImportError'),
+        'randrange': ret('int', 'k'), 'trans_key.encrypt': ret('bytes', 'encrypted_k'), 'MPInt': mpint_stub,
+        'self.send_packet': noop('send_packet')}),
+    ensures=[('only-a-client-accepts-PUBKEY', conn_is_client),
+             ('K_S,K_T-are-the-wire-fields;PUBKEY-consumed-completely;secret-sent-is-the-one-hashed', rsa_pubkey_post)],
+    always=[('PUBKEY-on-a-server-is-fatal-and-inert', lambda c: z3.Implies(z3.Not(conn_is_client(c)), z3.And(
+        z3.BoolVal(c.raised == 'ProtocolError'), untouched(c, *RSA_HASHED), nothing_happened(c, 'send_packet')))),
+        ('nothing-sent-on-failure', lambda c: z3.BoolVal(c.raised is None or not c.calls('send_packet')))],
+    raises={'ProtocolError': True, 'PacketDecodeError': True},
+    modifies=RSA_HASHED)
+rsa_process_pubkey.no_replay = True
+
+
+def rsa_start_post(c):
+    """server: K_S is the public blob of the host key chosen in the negotiation, K_T the blob of the fresh transient
+    key; PUBKEY carries exactly those two strings (they are what _compute_hash hashes)"""
+    if ki_conn_is_client_const(c):
+        return z3.And(z3.BoolVal(not c.calls('send_packet')), untouched_fields(c, *RSA_HASHED))
+    hk, gen, sp = c.calls('get_server_host_key'), c.calls('generate_private_key'), c.calls('send_packet')
+    if not all(len(x) == 1 for x in (hk, gen, sp)) or not isinstance(hk[0]['ret'], VOpt):
+        return z3.BoolVal(False)
+    tk = c.newv('_trans_key')
+    return z3.And(z3.Not(tk.isnone), c.eq(tk.val, gen[0]['ret']),
+                  c.new('_host_key_data') == c.new('public_data', hk[0]['ret'].val),
+                  c.new('_trans_key_data') == c.new('public_data', gen[0]['ret']),
+                  sp[0]['args'][1].z == ssh_string_z(c.new('_host_key_data')),
+                  sp[0]['args'][2].z == ssh_string_z(c.new('_trans_key_data')))
+
+
+def ki_conn_is_client_const(c):
+    return z3.is_true(z3.simplify(conn_is_client(c)))
+
+
+def untouched_fields(c, *flds):
+    return z3.And([c.new(f) == c.old(f) for f in flds])
+
+
+rsa_start = Spec(
+    'C03', 'kex_rsa', '_KexRSA.start', self_class='_KexRSA',
+    classes=dict(RSA2_CLASSES, _KexRSA=dict(RSA2_FIELDS, _key_size='int'), RSAKey={'public_data': 'bytes'}),
+    cases=[('client', {}), ('server', {})],
+    stubs=dict(CONN_ROLE_STUBS, **{
+        '*.get_server_host_key': ret('opt[obj:Key]', 'host_key'),
+        'generate_private_key': ret('obj:RSAKey', 'trans_key'), 'self.send_packet': noop('send_packet')}),
+    ensures=[('server:K_S,K_T-hashed-are-the-blobs-sent-in-PUBKEY;transient-key-exists', rsa_start_post)],
+    raises={'AssertionError': lambda c: nothing_happened(c, 'send_packet')},
+    modifies=['_host_key_data', '_trans_key_data', '_trans_key'])
+rsa_start.no_replay = True
+
+
+def rsa_secret_post(c):
+    P = pkt(c)['_packet'].z
+    ek, end = wire_string(P, z3.IntVal(1))
+    dec, hk, hs, sg, sp, nk = (c.calls('trans_key.decrypt'), c.calls('get_server_host_key'), c.calls('_compute_hash'),
+                               c.calls('host_key.sign'), c.calls('send_packet'), c.calls('send_newkeys'))
+    if not all(len(x) == 1 for x in (dec, hk, hs, sg, sp, nk)) or not isinstance(dec[0]['ret'], VOpt):
+        return z3.BoolVal(False)
+    D = dec[0]['ret'].val.z
+    kraw, dend = wire_string(D, z3.IntVal(0))
+    h = hs[0]['ret'].z
+    return z3.And(c.new('_encrypted_k') == ek, end == z3.Length(P), consumed(c), dec[0]['args'][0].z == ek,
+                  c.new('_k') == _sunbe(kraw), dend == z3.Length(D),
+                  z3.BoolVal(isinstance(sg[0]['recv'], VRef) and isinstance(hk[0]['ret'], VOpt) and
+                             sg[0]['recv'].addr == hk[0]['ret'].val.addr),                 # our chosen host key signs
+                  sg[0]['args'][0].z == h, sp[0]['args'][1].z == ssh_string_z(sg[0]['ret'].z),
+                  nk[0]['args'][0].z == _mpint(c.new('_k')), nk[0]['args'][1].z == h)
+
+
+def _rsa_sent_nothing(c):
+    return nothing_happened(c, 'send_packet', 'send_newkeys')
+
+
+rsa_process_secret = Spec(
+    'C03', 'kex_rsa', '_KexRSA._process_secret', self_class='_KexRSA', params=KEXP_PARAMS, classes=RSA2_CLASSES,
+    truthy=PACKET_TRUTHY, inline=dict(GEX_INLINE),
+    # initialisation order: on a server start() has generated the transient key (ensures of rsa_start below;
+    # _process_kexinit awaits start() before the packet loop can dispatch anything to the new kex object)
+    requires=lambda c: z3.And(pkt_wf(c), z3.Or(conn_is_client(c), z3.Not(c.oldv('_trans_key').isnone))),
+    stubs=dict(CONN_ROLE_STUBS, **{
+        'trans_key.decrypt': ret('opt[bytes]', 'decrypted_k'), '*.get_server_host_key': ret('opt[obj:Key]', 'host_key'),
+        'self._compute_hash': ret('bytes', 'H'), 'host_key.sign': ret('bytes', 'sig'), 'MPInt': mpint_stub,
+        'self.send_packet': noop('send_packet'), 'self._conn.send_newkeys': noop('send_newkeys')}),
+    ensures=[('only-a-server-accepts-SECRET', lambda c: z3.Not(conn_is_client(c))),
+             ('enc(K)-is-the-wire-field;SECRET-consumed-completely;K-is-the-whole-decrypted-mpint;'
+              'DONE,newkeys-use-the-same-K,H,our-host-key', rsa_secret_post)],
+    always=[('SECRET-on-a-client-is-fatal-and-inert', lambda c: z3.Implies(conn_is_client(c), z3.And(
+        z3.BoolVal(c.raised == 'ProtocolError'), untouched(c, *RSA_HASHED), _rsa_sent_nothing(c)))),
+        ('nothing-sent-on-failure', lambda c: z3.BoolVal(c.raised is None) if c.raised is None else _rsa_sent_nothing(c))],
+    raises={'ProtocolError': True, 'PacketDecodeError': True, 'KeyExchangeFailed': True, 'AssertionError': True},
+    modifies=['_encrypted_k', '_k'])
+rsa_process_secret.no_replay = True
 
 
 # ===================================================================== hybrid PQ/ECDH (mlkem768x25519, sntrup761x25519)
